@@ -577,7 +577,7 @@ class DrapeMerge(Contract):
     symbolic = False
     has_native = True
     props = ("C16",)
-    bounded_scope = "2-4 drape models with 2-3 prisms of 1-3 layers each (quick: 2 and 3 inputs over 6 layer-count patterns = 252 cases; thorough adds 4 inputs)"
+    bounded_scope = "2-4 drape models with 2-3 prisms of 1-3 layers each (quick: 2 and 3 inputs over 6 layer-count patterns = 252 cases; thorough adds 4 inputs); each input carries a float channel and two data of one name with different types"
 
     PATTERNS = [[1, 1], [1, 2], [2, 1], [3, 1], [2, 2, 1], [1, 3, 2]]
 
@@ -600,6 +600,9 @@ class DrapeMerge(Contract):
         layers = np.array([[p, k, top[p] - (k + 1) * (1 + 0.25 * p)] for p in range(n) for k in range(counts[p])], dtype=float)
         d = DrapeModel.create(ws, name=name, layers=layers, prisms=prisms)
         d.add_data({"v": {"values": v0 + np.arange(len(layers), dtype=float)}})
+        # one name carried by two data of different types (a float and an integer channel both called "rock")
+        d.add_data({"rock": {"values": v0 + 0.5 + np.arange(len(layers), dtype=float), "entity_type": {"name": "rock", "primitive_type": "FLOAT"}}})
+        d.add_data({"rock": {"values": (np.arange(len(layers)) + int(v0) + 7).astype("int32"), "entity_type": {"name": "rock_code", "primitive_type": "INTEGER"}}})
         return d
 
     @staticmethod
@@ -646,6 +649,22 @@ class DrapeMerge(Contract):
                 off += n + 2
             if off - 2 != len(mg):
                 return f"merged model has {len(mg)} cells, expected {off - 2} (inputs + 2 ghosts between consecutive inputs) ({case})"
+            # the two data called "rock" stay two data, each with its inputs' values at the running offsets
+            rocks = {("f" if np.asarray(c.values).dtype.kind == "f" else "i"): np.asarray(c.values, float) for c in m.children if getattr(c, "name", None) == "rock"}
+            if sorted(rocks) != ["f", "i"]:
+                return f"two data named 'rock' (a float and an integer type) were merged into {sorted(rocks)} ({case})"
+            off = 0
+            for k, o in enumerate(ins):
+                n = len(gs[k])
+                for c in o.children:
+                    if getattr(c, "name", None) != "rock":
+                        continue
+                    kind = "f" if np.asarray(c.values).dtype.kind == "f" else "i"
+                    want = np.asarray(c.values, float)
+                    got = rocks[kind][off:off + n]
+                    if len(got) != n or not np.allclose(got, want):
+                        return f"values of input {k} of the {'float' if kind == 'f' else 'integer'} data 'rock': {got.tolist()} expected {want.tolist()} ({case})"
+                off += n + 2
             for k, (o, (p, l, v)) in enumerate(zip(ins, snap)):
                 if not np.array_equal(np.array(o.prisms, float), p) or not np.array_equal(np.array(o.layers, float), l) or not np.array_equal(np.array(o.get_data("v")[0].values, float), v):
                     return f"input {k} was modified by the merge ({case})"
